@@ -302,8 +302,10 @@ def one_table(ctx, world, tno, forced=None):
                     if mutate_in_place(rng, d):
                         modified = True
                         script.append("mutate")
+                        with core.time_limit(20):
+                            cur_d = ad.data
                         toks = cc.to_tokens(local_world(world, ir),
-                                            tree_of(cur_tn), ad.data)
+                                            tree_of(cur_tn), cur_d)
                         lines.append("setdata " + " ".join(toks))
                         impl.append("ok")
             elif act == "assign" and kind == "known":
@@ -418,7 +420,9 @@ def one_table(ctx, world, tno, forced=None):
                 # is the change explained by "the decoded value was
                 # re-encoded" (order of set elements, duplicates, bool bytes)?
                 try:
-                    reenc = cc.impl_encode(gtirb, load_tn, ad.data)
+                    with core.time_limit(20):
+                        cur_d = ad.data
+                    reenc = cc.impl_encode(gtirb, load_tn, cur_d)
                 except (Exception, core.ImplTimeout):   # noqa
                     reenc = None
                 sig = {"kind": "unknown-type-rewritten",
@@ -440,9 +444,10 @@ def one_table(ctx, world, tno, forced=None):
             # saved bytes must be the encoding of the current value under
             # the current name: decode them independently and compare
             try:
-                cur = ad.data
+                with core.time_limit(20):
+                    cur = ad.data
                 want = cc.impl_encode(gtirb, stn, cur)
-            except Exception:   # noqa
+            except (Exception, core.ImplTimeout):   # noqa
                 want = None
             if want is not None and want != sbytes:
                 return fail({"kind": "stale-bytes", "modified": modified},
